@@ -72,6 +72,11 @@ class ParamsGenerator:
 
     if model_qsvs is None:
       model_qsvs = {}
+    else:
+      # Materialization updates the statistics (same-scale ops alias them, fixed
+      # output ranges overwrite them): work on a copy so that the caller's
+      # calibration result stays untouched.
+      model_qsvs = copy.deepcopy(model_qsvs)
 
     op_codes = self.flatbuffer_model.operatorCodes
     for subgraph in self.flatbuffer_model.subgraphs:
